@@ -346,12 +346,20 @@ def run(tier: str, seed: int) -> Report:  # noqa: PLR0912, PLR0915
     else:
         ports = sorted({0, 1, 2, 9, 10, 79, 80, 99, 100, 443, 999, 1000, 1023, 1024, 6801, 9999, 10000, 13400, 32767,
                         32768, 65534, 65535} | {rnd.randint(0, 65535) for _ in range(40)})
-    sweep_hosts = [h for hs in U.HOSTS.values() for h in hs] if thorough else [hs[0] for hs in U.HOSTS.values()] + ["::1"]
+    sweep_hosts = [hs[0] for hs in U.HOSTS.values()] + ["::1"]
     for host in sweep_hosts:
         for mode in ("hp", "split"):
             for dflt in (U.NOPORT, 7):
-                for off in range(0, len(ports), 8192):
-                    c = U.run_hpx(mode, host, ports[off:off + 8192], dflt)
+                pl = ports if dflt == U.NOPORT or not thorough else [0, 1, 7, 8, 65535]
+                for off in range(0, len(pl), 8192):
+                    c = U.run_hpx(mode, host, pl[off:off + 8192], dflt)
+                    c["origin"] = "port-sweep"
+                    ucases.append(c)
+    if thorough:  # every other listed host: boundary ports
+        for host in [h for hs in U.HOSTS.values() for h in hs if h not in sweep_hosts]:
+            for mode in ("hp", "split"):
+                for dflt in (U.NOPORT, 7):
+                    c = U.run_hpx(mode, host, [0, 1, 9, 10, 6801, 13400, 65534, 65535], dflt)
                     c["origin"] = "port-sweep"
                     ucases.append(c)
     rep.extra["port_sweep"] = {"ports": len(ports), "hosts": len(sweep_hosts), "exhaustive_0_65535": thorough}
@@ -440,7 +448,7 @@ def run(tier: str, seed: int) -> Report:  # noqa: PLR0912, PLR0915
                                                                else "<= 2 items over 0..6 and <= 3 items over 0..2; 2-D families Q_E2a/b")
         + ") x 6 notations x parsers; every abstract URI case host class x port {none,0,1,65535} x transport x "
         + ("every subset of settings" if thorough else "quick subset family") + " x 6 notations; "
-        + ("ports 0..65535 for every listed host" if thorough else "a boundary + seeded port list") + ". Seeded cases are samples.")
+        + ("ports 0..65535 for one host per class" if thorough else "a boundary + seeded port list") + ". Seeded cases are samples.")
 
     # ---- 5. binding self-tests: corrupted records and mutant parsers must be rejected by TLC
     selftest(rep, rcases, rv, ucases, uv)
@@ -508,6 +516,8 @@ def replay(path: str) -> int:
     quiet_gallia_logging()
     data = json.loads(open(path).read())
     bad = 0
+    rc: list[dict[str, Any]] = []
+    uc: list[dict[str, Any]] = []
     for viol in data["violations"]:
         rp = viol["detail"].get("replay")
         if not rp:
@@ -517,22 +527,31 @@ def replay(path: str) -> int:
         k = rp["kind"]
         if k in ("r1", "r2", "int"):
             base = int(rp.get("base") or 0)
-            c = R.case1(rp["ast"], base) if k == "r1" else R.case2(rp["ast"], base) if k == "r2" else R.case_int(rp["r"], rp["ds"])
-            v, _ = validate("Trace_RangeExpr", [c], 10, par=1)
-            w = c["wit"][v[0][1] - 1]["text"] if v[0][1] else None
-            print(f"replay {k} ast={rp.get('ast')} literal={rp.get('r')},{rp.get('ds')} input={w!r} verdict={v[0][0]}")
+            rc.append(R.case1(rp["ast"], base) if k == "r1" else R.case2(rp["ast"], base) if k == "r2"
+                      else R.case_int(rp["r"], rp["ds"]))
         elif k == "uri":
-            c = U.run_uri(rp["tr"], rp["host"], rp["port"], rp["settings"], rp["args"])
-            v, _ = validate("Trace_TargetUri", [c], 10, par=1)
-            print(f"replay uri {c['text'].get('uri')!r} got={c['got']} cfg={c['cfg']['t']} verdict={v[0][0]}")
+            uc.append(U.run_uri(rp["tr"], rp["host"], rp["port"], rp["settings"], rp["args"]))
         else:
-            c = U.run_hp(k, rp["host"], rp["port"], rp["dflt"])
-            v, _ = validate("Trace_TargetUri", [c], 10, par=1)
+            uc.append(U.run_hp(k, rp["host"], rp["port"], rp["dflt"]))
+    if rc:
+        v, _ = validate("Trace_RangeExpr", rc, 5000, par=1)
+        for i, c in enumerate(rc):
+            w = c["wit"][v[i][1] - 1]["text"] if v[i][1] else None
+            print(f"replay {c['kind']} ast={c.get('ast')} literal={c.get('r')},{c.get('ds')} input={w!r} verdict={v[i][0]}")
+            bad += v[i][0] != "ok"
+    if uc:
+        v, _ = validate("Trace_TargetUri", uc, 5000, par=1)
+        for i, c in enumerate(uc):
             got = c["got"]
-            shown = {"host": "".join(map(chr, got["host"])), "port": got["port"]} if got["t"] == "ok" else got
-            print(f"replay {k} host={rp['host']!r} port={rp['port']} default={rp['dflt']} got={shown} verdict={v[0][0]}")
-        bad += v[0][0] != "ok"
+            if c["kind"] == "uri":
+                print(f"replay uri {c['text'].get('uri')!r} parsed={got['t']} cfg={c['cfg']['t']} verdict={v[i][0]}")
+            else:
+                shown = {"host": "".join(map(chr, got["host"])), "port": got["port"]} if got["t"] == "ok" else got
+                print(f"replay {c['kind']} host={c['text']['host']!r} port={c['port']} default={c['dflt']} got={shown} "
+                      f"verdict={v[i][0]}")
+            bad += not (v[i][0] == "ok" or v[i][0].startswith("unspecified"))
     if bad:
         print(f"VIOLATION property=C20 replay={path}")
         return 1
+    print(f"replay: all {len(rc) + len(uc)} recorded cases are accepted now")
     return 0
